@@ -102,6 +102,47 @@ def matches(entry: dict, ob: dict) -> bool:
     return True
 
 
+def share(ctx: Ctx, rule: str, fn, *args, only=None, **kwargs) -> None:
+    """Run a rule group that belongs to another property and claim its obligations under `rule` of this one (a clause
+    that two properties state is decided by the same rules).  only: keep obligations whose original rule id is in `only`."""
+    sub = type(ctx)(ctx.prop, ctx.tier, ctx.seed, ctx.repo)
+    fn(sub, *args, **kwargs)
+    for o in sub.obligations:
+        if only is not None and o["rule"] not in only:
+            continue
+        o = dict(o)
+        o["rule"] = rule
+        ctx.obligations.append(o)
+    for kind in ("files", "functions"):
+        ctx.analysed[kind] |= sub.analysed[kind]
+
+
+def run_rules(ctx: Ctx, mod) -> None:
+    """The property's rules, then the reference models.  A spelling a later rule cannot read (AnalysisError) does not
+    erase a violation an earlier rule has already established: the violation is reported, the rest is noted as not
+    analysed.  Without such a violation the analysis error stands (exit 2)."""
+    from . import refmodels
+    from .model import AnalysisError
+
+    try:
+        mod.run(ctx)
+    except AnalysisError as exc:
+        known = [e for e in load_known(ctx.prop) if e.get("status") == "known"]
+        fresh = [o for o in ctx.obligations if not o["ok"] and not any(matches(e, o) for e in known)]
+        if not fresh:
+            # the path rules cannot read this spelling; the reference models may still establish a violation on their own
+            before = len(ctx.obligations)
+            try:
+                refmodels.check(ctx)
+            except AnalysisError:
+                pass
+            if not [o for o in ctx.obligations[before:] if not o["ok"] and not any(matches(e, o) for e in known)]:
+                raise
+        ctx.notes.append(f"analysis stopped early, the violation(s) reported stand on their own: {exc}")
+        return
+    refmodels.check(ctx)
+
+
 def finish(ctx: Ctx, meta: dict) -> int:
     """Print verdict lines, write evidence, return exit code."""
     known = [e for e in load_known(ctx.prop) if e.get("status") == "known"]
